@@ -717,6 +717,31 @@ func (r *Resolver) funcValues(v ssa.Value, seen map[ssa.Value]bool) (fns []*ssa.
 				}
 				return
 			}
+			if fv, ok := x.X.(*ssa.FreeVar); ok { // captured variable cell holding a func
+				fn := fv.Parent()
+				idx := -1
+				for i, y := range fn.FreeVars {
+					if y == fv {
+						idx = i
+					}
+				}
+				if p := fn.Parent(); p != nil && idx >= 0 {
+					allInstrs(p, func(in ssa.Instruction) {
+						if mc, ok := in.(*ssa.MakeClosure); ok && mc.Fn == fn {
+							if a, ok := mc.Bindings[idx].(*ssa.Alloc); ok {
+								for _, ref := range *a.Referrers() {
+									if st, ok := ref.(*ssa.Store); ok && st.Addr == a {
+										add(r.funcValues(st.Val, seen))
+									}
+								}
+							} else {
+								add(r.funcValues(mc.Bindings[idx], seen))
+							}
+						}
+					})
+				}
+				return
+			}
 			if ia, ok := x.X.(*ssa.IndexAddr); ok { // element of a slice of funcs (e.g. range opts)
 				add(r.funcValues(ia.X, seen))
 				return
